@@ -411,14 +411,15 @@ fn nuts_case(_ctx: &Ctx, rep: &mut Report, case: u64, g: &mut Sm64) {
     let n_discard = g.range(0, 8);
     let inits: Vec<Vec<f64>> = (0..n_chains).map(|_| (0..dim).map(|_| g.normal()).collect()).collect();
     let target = DiagGauss::new((0..dim).map(|i| 0.7 + i as f64 * 0.4).collect(), vec![0.0; dim]);
-    let ctxj = json!({"n_chains": n_chains, "dim": dim, "n_collect": n_collect, "n_discard": n_discard, "seed": seed});
+    let delta = g.uniform(0.5, 0.99);
+    let ctxj = json!({"n_chains": n_chains, "dim": dim, "n_collect": n_collect, "n_discard": n_discard, "seed": seed, "delta": delta});
     let r = guard(|| {
-        let mut multi = NUTS::<f64, B64, DiagGauss>::new(target.clone(), inits.clone(), 0.8).set_seed(seed);
+        let mut multi = NUTS::<f64, B64, DiagGauss>::new(target.clone(), inits.clone(), delta).set_seed(seed);
         let out = tensor3_bits(&multi.run(n_collect, n_discard));
         // per-chain twins, traced
         let mut per_chain = vec![];
         for (i, init) in inits.iter().enumerate() {
-            let mut ch = NUTSChain::<f64, B64, DiagGauss>::new(target.clone(), init.clone(), 0.8)
+            let mut ch = NUTSChain::<f64, B64, DiagGauss>::new(target.clone(), init.clone(), delta)
                 .set_seed(seed.wrapping_add(i as u64 + 1));
             hook::enable();
             let t = ch.run(n_collect, n_discard);
